@@ -103,6 +103,83 @@ void h_init_history_list(void) { HistoryLinkedList *l; vg_havoc(); init_history_
 void h_find_in_history_list(void) { HistoryLinkedList *l; uint8_t c; vg_havoc(); find_in_history_list(l, c); VG_CANARY("find_in_history_list"); }
 void h_update_history_list(void) { HistoryLinkedList *l; uint8_t b; vg_havoc(); update_history_list(l, b); VG_CANARY("update_history_list"); }
 
+/* ------------------------------------------------------------------------------------------------------------
+   C04: the history list of pma_common.c is a MOVE-TO-FRONT list (harness-mode contracts, quantifier-free).
+   Abstract view: vg_rank[b] = recency rank of byte b (0 = most recently output).  Representation invariant MTF:
+     head has rank 0;  for every node k: rank[prev[k]] == rank[k] + 1 (mod 256), next[prev[k]] == k, prev[next[k]] == k;
+     rank is injective.
+   Then (i) init_history_list establishes MTF with the fixed PMarc start order 0x20..0x7F, 0x00..0x1F, 0xA0..0xDF,
+   0x80..0x9F, 0xE0..0xFF; (ii) find_in_history_list(n) returns THE byte of rank n, walking in either direction;
+   (iii) update_history_list(b) is move-to-front on the view: b gets rank 0, every byte that was more recent than b
+   moves back by one, every other byte keeps its rank -- and MTF holds again.
+   Skolem style: the post-state invariant is asserted at ONE arbitrary node vg_mk; the pre-state invariant is assumed
+   at the finitely many nodes the argument needs (instances of the universally quantified precondition). */
+static uint8_t vg_rank[256];
+#define VG_HN(k)      vg_dec.history_list.history[(uint8_t) (k)]
+#define VG_MTF1(R, k) ((R)[VG_HN(k).prev] == (uint8_t) ((R)[(uint8_t) (k)] + 1) && VG_HN(VG_HN(k).prev).next == (uint8_t) (k) && VG_HN(VG_HN(k).next).prev == (uint8_t) (k))
+/* start order of the format: position of byte b in 0x20..0x7F, 0x00..0x1F, 0xA0..0xDF, 0x80..0x9F, 0xE0..0xFF */
+#define VG_RANK0(b)   ((uint8_t) ((b) >= 0x20 && (b) <= 0x7f ? (b) - 0x20 : (b) <= 0x1f ? 96 + (b) : \
+                       (b) >= 0xa0 && (b) <= 0xdf ? 128 + ((b) - 0xa0) : (b) >= 0x80 && (b) <= 0x9f ? 192 + ((b) - 0x80) : 224 + ((b) - 0xe0)))
+void h_mtf_init(void)
+{
+	unsigned k = nondet_uint(), j = nondet_uint();
+	vg_havoc();
+	__CPROVER_assume(k < 256 && j < 256);
+	init_history_list(&vg_dec.history_list);
+	__CPROVER_assert(vg_dec.history_list.history_head == 0x20 && VG_RANK0(0x20) == 0, "C04 history list starts at 0x20 (rank 0)");
+	__CPROVER_assert(VG_RANK0(VG_HN(k).prev) == (uint8_t) (VG_RANK0(k) + 1) && VG_HN(VG_HN(k).prev).next == k && VG_HN(VG_HN(k).next).prev == k,
+	                 "C04 initial history list is the fixed PMarc order 0x20..0x7F, 0x00..0x1F, 0xA0..0xDF, 0x80..0x9F, 0xE0..0xFF (arbitrary node)");
+	__CPROVER_assert(j == k || VG_RANK0(j) != VG_RANK0(k), "C04 the start order is a permutation of all 256 byte values");
+	VG_CANARY("mtf_init");
+}
+/* The invariant is needed only along the walked path; the harness names those nodes (they are determined by the
+   pre-state) and assumes the invariant there: c0 = head, c(i+1) = prev[c(i)] (count < 128, at most 127 steps) or
+   next[c(i)] (count >= 128, at most 128 steps).  One group per direction (VG_MTF_DIR). */
+#ifndef VG_MTF_DIR
+#define VG_MTF_DIR 0
+#endif
+void h_mtf_find(void)
+{
+	unsigned i;
+	uint8_t n = nondet_uchar(), r, c;
+	vg_havoc();
+	__CPROVER_havoc_object(vg_rank);
+	__CPROVER_assume(VG_MTF_DIR ? n >= 128 : n < 128);
+	c = vg_dec.history_list.history_head;
+	__CPROVER_assume(vg_rank[c] == 0);
+	for (i = 0; i <= 128; i++) {
+		__CPROVER_assume(VG_MTF1(vg_rank, c));
+		c = VG_MTF_DIR ? VG_HN(c).next : VG_HN(c).prev;
+	}
+	r = find_in_history_list(&vg_dec.history_list, n);
+	__CPROVER_assert(vg_rank[r] == n, "C04 find_in_history_list(n) returns the byte whose recency rank is n");
+	VG_CANARY("mtf_find");
+}
+/* rank after move-to-front of b, as a function of the rank before */
+#define VG_RANK1(x, b) ((uint8_t) ((uint8_t) (x) == (uint8_t) (b) ? 0 : vg_rank[(uint8_t) (x)] < vg_rank[(uint8_t) (b)] ? vg_rank[(uint8_t) (x)] + 1 : vg_rank[(uint8_t) (x)]))
+void h_mtf_update(void)
+{
+	uint8_t b = nondet_uchar(), mk = nondet_uchar(), mj = nondet_uchar(), h0;
+	uint8_t T[10]; unsigned a, c, nT = 0;
+	vg_havoc();
+	__CPROVER_havoc_object(vg_rank);
+	h0 = vg_dec.history_list.history_head;
+	T[nT++] = mk; T[nT++] = mj; T[nT++] = b; T[nT++] = h0; T[nT++] = VG_HN(b).prev; T[nT++] = VG_HN(b).next;
+	T[nT++] = VG_HN(h0).next; T[nT++] = VG_HN(mk).prev; T[nT++] = VG_HN(mk).next; T[nT++] = VG_HN(h0).prev;
+	__CPROVER_assume(vg_rank[h0] == 0);
+	for (a = 0; a < 10; a++) {
+		__CPROVER_assume(VG_MTF1(vg_rank, T[a]));
+		for (c = 0; c < 10; c++) __CPROVER_assume(T[a] == T[c] || vg_rank[T[a]] != vg_rank[T[c]]);   /* rank injective */
+	}
+	update_history_list(&vg_dec.history_list, b);
+	__CPROVER_assert(vg_dec.history_list.history_head == b, "C04 update_history_list: the byte just output becomes the head (rank 0)");
+	__CPROVER_assert(VG_RANK1(VG_HN(mk).prev, b) == (uint8_t) (VG_RANK1(mk, b) + 1),
+	                 "C04 update_history_list is move-to-front: in the new list every node's predecessor has the moved-to-front rank + 1 (arbitrary node)");
+	__CPROVER_assert(VG_HN(VG_HN(mk).prev).next == mk && VG_HN(VG_HN(mk).next).prev == mk, "C04 update_history_list keeps prev/next mutually inverse (arbitrary node)");
+	__CPROVER_assert(mj == mk || VG_RANK1(mj, b) != VG_RANK1(mk, b), "C04 update_history_list: the new ranks are again a permutation");
+	VG_CANARY("mtf_update");
+}
+
 /* pm2_decoder.c */
 void h_init(void)
 {
